@@ -42,11 +42,19 @@ WHY = {
     'C19-r2-3': 'three nested closures (one a generator) lifted to module-level functions - no longer applies after the F24 repair of the same function',
     'C20-r2-2': 'nested closure `_each` lifted to a module-level function with the captured variables as parameters, `map` -> comprehension',
     'C14-r2-3': '(silent when written; no longer applies after the F25 repair of the same function)',
+    'C14-4': '(no longer applies after the F25 repair of the same function)',
+    'C19-3': 'nested generator lifted to a module-level generator function - no longer applies after the F24 repair of the same function',
+    'C01-r3-3': 'the identical sparse and dense branches of api.matrix merged into one path with `mat if sparse else arr` values',
+    'C06-r3-2': 'the epoch body extracted into a helper that returns None when no input has records; the caller tests `is not None` (needs: the frame the other branch returns is not None)',
+    'C08-r3-1': 'the two per-axis re-binning blocks folded into a conditional value per axis',
+    'C10-r3-3': '`for ... else` with two `break`s becomes a `finished` flag with a single `break` (a different loop structure)',
+    'C15-r3-2': 'the recursive nested helper of visititems renamed and re-parameterised (closes over func and the result dict instead of passing them)',
+    'C16-r3-3': 'cload pairs: nested tril_action ifs flattened and the dtype-override branch restructured around a named condition',
 }
 rows = []
 idx = []
 for d in sorted(os.listdir('/verif/benign')):
-    if not re.match(r'C\d\d-(r2-)?\d$', d):
+    if not re.match(r'C\d\d-(r[23]-)?\d$', d):
         continue
     notes = ''
     p = f'/verif/benign/{d}/notes.txt'
@@ -61,7 +69,7 @@ json.dump(idx, open('/verif/benign/INDEX.json', 'w'), indent=1)
 n_s = sum(1 for x in idx if x['silent'])
 txt = ['## Appendix E. Behaviour-preserving maintenance changes (false-alarm probe)', '',
        'Produced by fresh sub-agents that were given only the text of one property and a scratch worktree and asked to act as a',
-       'careful maintainer: four (first probe, ids `Cxx-k`) or three (second probe with fresh authors, ids `Cxx-r2-k`) realistic, behaviour-preserving changes each (renames, restructured conditionals, guard clauses,',
+       'careful maintainer: four (first probe, ids `Cxx-k`) or three (second and third probe with fresh authors each time, ids `Cxx-r2-k`, `Cxx-r3-k`) realistic, behaviour-preserving changes each (renames, restructured conditionals, guard clauses,',
        'idiom replacements, extracted or inlined helpers, temporaries, reordering, docstrings / logging, dead-code removal), each',
        'with the unedited suite at baseline and a differential digest (`equiv.py`: outputs, exception classes, file contents on',
        'many inputs) identical before and after. `tools/run_benign.sh` applies each to a scratch copy and runs **all 20** checks.',
